@@ -357,7 +357,7 @@ func runC01(c *Ctx) {
 			if ok, _, _ := c.acquirePath(r, fn); ok {
 				r.acquiring[fn] = true
 				changed = true
-				c.Role("locker.acquiringHelper", relName(fn), fn.Pos())
+				c.Role("locker.acquiringHelper", ir.FnName(fn), fn.Pos()) // tolerated, not required: the normal form may inline it
 			}
 		}
 	}
